@@ -2,8 +2,9 @@
 
 Claimed for its HISTORY half only (DESIGN 4.9): finite sequences of mutations of the list-backed
 collection interleaved with observations, checked step by step against a reference model (a Python
-list of arrays; NumPy indexing of an object array for selections).  No fault, schedule or clock exists
-for this property; evidence says fault_kinds: {}.  The index-expression half is evaluated only as the
+list of arrays; NumPy indexing of an object array for selections).  No schedule or clock exists for
+this property; the only fault kind is a read of the file-backed collection that fails once (I/O error
+or KeyboardInterrupt), after which the same open collection must still answer correctly.  The index-expression half is evaluated only as the
 observations of those histories.
 """
 import array
@@ -27,7 +28,7 @@ RULE = ('runs generated from the seed, one history per run: a SignatureList L wi
 STATES_MEASURE = 'distinct mutation-kind sequences (history shapes) reached'
 
 REAL = ['gambit.sigs.base.SignatureList / SignatureArray / ConcatenatedSignatureArray', 'gambit.util.indexing.AdvancedIndexingMixin', 'gambit.sigs.hdf5 (dump + load on scratch disk) for the file-backed snapshot', 'h5py']
-STUB = ['nothing is stubbed: the collections are single-threaded values; the simulator only generates and replays the operation history']
+STUB = ['h5py.Dataset.__getitem__ is wrapped to fail once on a drawn read (gvsim.seams.h5fault); otherwise nothing is stubbed: the collections are single-threaded values and the simulator generates and replays the operation history']
 ASSUMPTIONS = [
 	'reference model: Python list semantics for mutations (including which exception type is raised), NumPy indexing of an object array holding the model for selections',
 	'ill-typed / out-of-range indices may raise IndexError or TypeError (the statement allows either)',
@@ -215,16 +216,50 @@ def scenario(ctx):
 	n_steps = ch.int(1, 30 if not big else 8, 'n_steps')
 	hfile = [0]
 
+	prev = {'H': None, 'M': None}
+
 	def snapshots():
 		A = SignatureArray(M, kspec, dtype=np.dtype(dtype))
 		H = None
 		closer = None
 		if len(M) >= 1:
 			hfile[0] += 1
-			path = os.path.join(ctx.scratch, f'snap{hfile[0]}.gs')
-			dump_signatures(path, A)
+			# the file-backed snapshot always lives under the same name: each new one REPLACES the file on disk
+			# (os.replace) while the previous view may still be open - two views of "the same file name" are
+			# equal only if their contents are
+			path = os.path.join(ctx.scratch, 'snap.gs')
+			tmp = os.path.join(ctx.scratch, 'snap.tmp.gs')
+			dump_signatures(tmp, A)
+			os.replace(tmp, path)
 			H = load_signatures(path)
-			closer = H.close
+			if prev['H'] is not None:
+				same = len(prev['M']) == len(M) and all(_eq_arr(a, b) for a, b in zip(prev['M'], M))
+				try:
+					eq = (prev['H'] == H)
+				except Exception as e:
+					ctx.violation('C20.eq', f'HDF5Signatures == HDF5Signatures raised {type(e).__name__}', detail=str(e))
+				if bool(eq) != same:
+					ctx.violation('C20.eq', f'two file-backed collections opened under the same file name compare {"equal" if eq else "unequal"} although their signatures are {"equal" if same else "different"} (the file was replaced in between; history {",".join(shape[-8:])})')
+				ctx.probe('file_replaced_while_view_open')
+				try:
+					prev['H'].close()
+				except Exception:
+					pass
+			prev['H'], prev['M'] = H, [a.copy() for a in M]
+			closer = None     # kept open until the next snapshot replaces it
+			# a read of the file-backed collection that fails once must not poison later reads
+			if ch.flip(0.25, f'rf{hfile[0]}'):
+				from ..seams.h5fault import read_fault
+				exc_t = ch.pick([OSError, KeyboardInterrupt], f'rf{hfile[0]}.exc')
+				with read_fault(ch.int(1, 4, f'rf{hfile[0]}.k'), exc_t) as rf:
+					try:
+						for i in range(len(M)):
+							np.asarray(H[i])
+						H[list(range(len(M)))[::-1]]
+					except (OSError, KeyboardInterrupt):
+						pass
+				if rf.fired:
+					ctx.fault('hdf5_read_error_once' if exc_t is OSError else 'hdf5_read_interrupted_once')
 		return A, H, closer
 
 	for step in range(n_steps):
@@ -351,6 +386,11 @@ def scenario(ctx):
 	finally:
 		if closer:
 			closer()
+	if prev['H'] is not None:
+		try:
+			prev['H'].close()
+		except Exception:
+			pass
 	ctx.stats['executions'] += 1
 	ctx.log('final', n=len(M), shape=','.join(shape), h=blob_hash(np.concatenate(M).astype('u8')) if M else '')
 	ctx.sample = dict(n0=n0, steps=n_steps, shape=','.join(shape))
